@@ -293,18 +293,36 @@ func (c *memConn) ClientReset() {
 // ---- listener
 
 type memListener struct {
-	ch     chan net.Conn
-	closed chan struct{}
-	once   sync.Once
+	failEvery int // > 0: every failEvery-th Accept fails with a temporary error (the connection stays queued)
+	accepts   int
+	ch        chan net.Conn
+	closed    chan struct{}
+	once      sync.Once
 }
 
 func newMemListener() *memListener {
 	return &memListener{ch: make(chan net.Conn, 1024), closed: make(chan struct{})}
 }
 
+// tempAcceptErr is what accept(2) returns when the process is momentarily out of descriptors (EMFILE):
+// a net.Error that is temporary - the listener is fine, the next Accept may succeed.
+type tempAcceptErr struct{}
+
+func (tempAcceptErr) Error() string   { return "accept: too many open files (injected)" }
+func (tempAcceptErr) Timeout() bool   { return false }
+func (tempAcceptErr) Temporary() bool { return true }
+
 func (l *memListener) Accept() (net.Conn, error) {
 	select {
 	case c := <-l.ch:
+		if l.failEvery > 0 {
+			l.accepts++
+			if l.accepts%l.failEvery == 0 {
+				// the connection stays queued (as in the kernel's backlog); this call fails
+				go func() { l.ch <- c }()
+				return nil, &net.OpError{Op: "accept", Net: "tcp", Err: tempAcceptErr{}}
+			}
+		}
 		return c, nil
 	case <-l.closed:
 		return nil, net.ErrClosed
